@@ -223,22 +223,35 @@ open Spec Model Model.C04
 theorem conj_half_mul (c : GQ) : (C04.half * c).conj = C04.half * c.conj := by
   apply GQ.ext <;> simp [GQ.conj, C04.half]
 
-/-- with a Hermitian tensor the symmetrised coefficient of the code is the antisymmetrised one -/
+/-- the code's symmetrised eight-entry coefficient is the half-sum of the antisymmetrised entry and the
+conjugate of the Hermitian-partner antisymmetrised entry — pure algebra, no hypothesis on the tensor -/
+theorem iopC4_split (n : Nat) (two : List GQ) (p q r s : Nat) :
+    iopC4 n two p q r s = C04.half * (Kc n two p q r s + (Kc n two r s p q).conj) := by
+  unfold iopC4 Kc
+  rw [conj_add, conj_sub, conj_sub]; ring
+
+/-- with a tensor whose *antisymmetrised* part is Hermitian (`K[rs,pq] = conj K[pq,rs]`: the denoted operator
+is Hermitian; the stored entries need not be Hermitian element by element) the symmetrised coefficient of
+the code is the antisymmetrised one -/
 theorem iopC4_eq (n : Nat) (two : List GQ) (p q r s : Nat) (hp : p < n) (hq : q < n) (hr : r < n) (hs : s < n)
-    (h2 : ∀ p q r s, p < n → q < n → r < n → s < n → get2 n two s r q p = (get2 n two p q r s).conj) :
+    (hK : ∀ p q r s, p < n → q < n → r < n → s < n → Kc n two r s p q = (Kc n two p q r s).conj) :
     iopC4 n two p q r s = Kc n two p q r s ∧ (Kc n two p q r s).conj = Kc n two r s p q := by
+  have a := hK p q r s hp hq hr hs
+  refine ⟨?_, a.symm⟩
+  rw [iopC4_split, a, conj_conj]
+  exact half_mul_two (Kc n two p q r s)
+
+/-- element-wise Hermitian storage (`T[s,r,q,p] = conj T[p,q,r,s]`) implies the operator-level condition -/
+theorem Kc_herm_of_elementwise (n : Nat) (two : List GQ)
+    (h2 : ∀ p q r s, p < n → q < n → r < n → s < n → get2 n two s r q p = (get2 n two p q r s).conj)
+    (p q r s : Nat) (hp : p < n) (hq : q < n) (hr : r < n) (hs : s < n) :
+    Kc n two r s p q = (Kc n two p q r s).conj := by
   have a1 := h2 p q r s hp hq hr hs
   have a2 := h2 p q s r hp hq hs hr
   have a3 := h2 q p r s hq hp hr hs
   have a4 := h2 q p s r hq hp hs hr
-  refine ⟨?_, ?_⟩
-  · unfold iopC4 Kc
-    rw [a1, a2, a3, a4]
-    simp only [conj_conj]
-    have := half_mul_two (get2 n two p q r s - get2 n two q p r s - get2 n two p q s r + get2 n two q p s r)
-    rw [← this]; ring
-  · unfold Kc
-    rw [conj_add, conj_sub, conj_sub, ← a1, ← a2, ← a3, ← a4]; ring
+  unfold Kc
+  rw [conj_add, conj_sub, conj_sub, ← a1, ← a2, ← a3, ← a4]; ring
 
 theorem tC_double_swap (p q r s m x : Nat) (hpq : p ≠ q) (hrs : r ≠ s) :
     termCoef .fermion [(r, 1), (s, 1), (p, 0), (q, 0)] [m] [x]
@@ -247,7 +260,7 @@ theorem tC_double_swap (p q r s m x : Nat) (hpq : p ≠ q) (hrs : r ≠ s) :
 
 /-- the two-body part of the tensor formula, regrouped as the code loops over it -/
 theorem twoBody_regroup (n : Nat) (two : List GQ) (m x : Nat)
-    (h2 : ∀ p q r s, p < n → q < n → r < n → s < n → get2 n two s r q p = (get2 n two p q r s).conj) :
+    (h2 : ∀ p q r s, p < n → q < n → r < n → s < n → Kc n two r s p q = (Kc n two p q r s).conj) :
     ((List.range n).map fun p => ((List.range n).map fun q => ((List.range n).map fun r =>
         ((List.range n).map fun s =>
           get2 n two p q r s * termCoef .fermion [(p, 1), (q, 1), (r, 0), (s, 0)] [m] [x]).sum).sum).sum).sum
@@ -308,11 +321,12 @@ theorem den_fold_from (alg : Alg) (tol : Rat) (acc0 : Op) (imgs : List Op) (s x 
       = den alg acc0 s x + (imgs.map fun img => den alg img s x).sum :=
   (sumOk_fold alg tol imgs acc0 true s x h).2
 
-/-- **`jordan_wigner(InteractionOperator)` is sound**: for every `n` and every Hermitian pair of tensors
-(`one[q,p] = conj one[p,q]`, `two[s,r,q,p] = conj two[p,q,r,s]`, no other symmetry), on every exact run -/
+/-- **`jordan_wigner(InteractionOperator)` is sound**: for every `n` and every pair of tensors denoting a
+Hermitian operator (`one[q,p] = conj one[p,q]`; the antisymmetrised two-body tensor is Hermitian,
+`K[rs,pq] = conj K[pq,rs]` — the storage need not be Hermitian element by element), on every exact run -/
 theorem jwInteractionOp_sound (tol : Rat) (n : Nat) (const : GQ) (one two : List GQ)
     (h1 : ∀ p q, p < n → q < n → get1 n one q p = (get1 n one p q).conj)
-    (h2 : ∀ p q r s, p < n → q < n → r < n → s < n → get2 n two s r q p = (get2 n two p q r s).conj)
+    (h2 : ∀ p q r s, p < n → q < n → r < n → s < n → Kc n two r s p q = (Kc n two p q r s).conj)
     (hok : jwInteractionOpOk tol n const one two = true) (m x : Nat) :
     den .qubit (jwInteractionOp tol n const one two) [m] [x]
       = den .fermion (Spec.C04.interactionOp n const one two) [m] [x] := by
